@@ -188,6 +188,14 @@ func (s *SwapStateMachine) SendEvent(event EventType, eventCtx EventContext) (bo
 	}
 	var err error
 
+	// An event that the current state does not accept must not touch the swap:
+	// check the state table before the event context is applied and persisted.
+	if eventCtx != nil {
+		if _, err := s.getNextState(event); err != nil {
+			return false, ErrEventRejected
+		}
+	}
+
 	// validate and apply event context
 	if eventCtx != nil {
 		err = eventCtx.Validate(s.Data)
